@@ -14,6 +14,7 @@ import (
 	"encoding/binary"
 
 	"wa-lang.org/wa/internal/loader/buildtag"
+	"wa-lang.org/wa/internal/native/pcrel"
 	"wa-lang.org/wa/internal/wasm/leb128"
 )
 
@@ -311,6 +312,84 @@ func lebMain(path string) {
 	enc.Encode(map[string]interface{}{"done": true, "n": n, "bad": bad, "execs": execs})
 }
 
+// ---------------------------------------------------------------- C18
+
+type pcCase struct {
+	Mode   string `json:"mode"`
+	Delta  []int  `json:"delta"`
+	Pc     []int  `json:"pc"`
+	Target []int  `json:"target"`
+	Hi     []int  `json:"hi"`
+	Lo     []int  `json:"lo"`
+}
+
+func pcrelMain(path string) {
+	out := bufio.NewWriter(os.Stdout)
+	defer out.Flush()
+	enc := json.NewEncoder(out)
+	n, bad, execs := 0, 0, 0
+	fail := func(kind string, c *pcCase, detail string) {
+		bad++
+		if bad <= 60 {
+			enc.Encode(map[string]interface{}{"fail": kind, "case": c, "detail": detail})
+		}
+	}
+	rvPcs := []int64{0, 4, 0x1000, 0x7ffff000, 0x80000000, 0xfffff000, 0x12345678}
+	eachCase(path, func(js []byte) {
+		var c pcCase
+		must(json.Unmarshal(js, &c))
+		n++
+		func() {
+			defer func() {
+				if e := recover(); e != nil {
+					fail("panic", &c, fmt.Sprint(e))
+				}
+			}()
+			wantHi, wantLo := uint32(le64(c.Hi)), uint32(le64(c.Lo))
+			if c.Mode == "rv" {
+				delta := int32(uint32(le64(c.Delta)))
+				hi, lo := pcrel.SplitOffset(delta)
+				execs++
+				if lo < -2048 || lo > 2047 {
+					fail("rv-lo-out-of-range", &c, fmt.Sprintf("SplitOffset(%d) = (%d, %d)", delta, hi, lo))
+				} else if uint32(hi)&0xFFFFF != wantHi || uint32(lo)&0xFFF != wantLo {
+					fail("rv-split", &c, fmt.Sprintf("SplitOffset(%d) = (%d, %d), fields %#x %#x; specified %#x %#x", delta, hi, lo, uint32(hi)&0xFFFFF, uint32(lo)&0xFFF, wantHi, wantLo))
+				}
+				if got := pcrel.CombineOffset(hi, lo); got != delta {
+					fail("rv-combine", &c, fmt.Sprintf("CombineOffset(SplitOffset(%d)) = %d", delta, got))
+				}
+				for _, pc := range rvPcs {
+					target := int64(uint32(pc + int64(delta)))
+					h2, l2 := pcrel.MakePCRel(target, pc)
+					execs++
+					if uint32(h2)&0xFFFFF != wantHi || uint32(l2)&0xFFF != wantLo {
+						fail("rv-makepcrel", &c, fmt.Sprintf("MakePCRel(%#x, %#x) = (%d, %d)", target, pc, h2, l2))
+						break
+					}
+					if got := pcrel.GetTargetAddress(uint32(pc), h2, l2); got != uint32(target) {
+						fail("rv-target", &c, fmt.Sprintf("GetTargetAddress(%#x, %d, %d) = %#x, want %#x", pc, h2, l2, got, target))
+						break
+					}
+				}
+				if delta >= 0 {
+					h3, l3 := pcrel.MakeAbs(uint32(delta))
+					if uint32(h3)&0xFFFFF != wantHi || uint32(l3)&0xFFF != wantLo {
+						fail("rv-makeabs", &c, fmt.Sprintf("MakeAbs(%#x) = (%d, %d)", delta, h3, l3))
+					}
+				}
+				return
+			}
+			pc, target := int64(le64(c.Pc)), int64(le64(c.Target))
+			hi, lo := pcrel.MakeLa64PCRel(target, pc)
+			execs++
+			if uint32(hi)&0xFFFFF != wantHi || uint32(lo)&0xFFF != wantLo {
+				fail("la-split", &c, fmt.Sprintf("MakeLa64PCRel(%#x, %#x) = (%#x, %#x); specified fields %#x %#x", uint64(target), uint64(pc), hi, lo, wantHi, wantLo))
+			}
+		}()
+	})
+	enc.Encode(map[string]interface{}{"done": true, "n": n, "bad": bad, "execs": execs})
+}
+
 func must(err error) {
 	if err != nil {
 		fmt.Fprintln(os.Stderr, "harness error:", err)
@@ -327,6 +406,8 @@ func main() {
 		buildtagMain(os.Args[2])
 	case "leb":
 		lebMain(os.Args[2])
+	case "pcrel":
+		pcrelMain(os.Args[2])
 	default:
 		os.Exit(2)
 	}
